@@ -35,6 +35,15 @@ ReplayRecord ==
 
 EmitReplay == stage = "done" => PrintT(<<"REPLAY", ToJson(ReplayRecord)>>)
 
+\* State constraints selecting families of programs for deeper exhaustive runs.
+UsesOf(e) == Cardinality({ i \in 1..Len(graph) : graph[i].a = e \/ graph[i].b = e \/ graph[i].c = e \/ graph[i].d = e })
+           + Cardinality({ i \in 1..Len(graph) : graph[i].k \in {"add", "mul"} /\ graph[i].a = e /\ graph[i].b = e })
+\* fusion family: at most two multiplications, each product consumed at most once, no constants
+FusionShaped ==
+    /\ Cardinality({ i \in 1..Len(graph) : graph[i].k = "mul" }) <= 2
+    /\ \A i \in 1..Len(graph) : graph[i].k = "mul" => UsesOf(i) <= 1
+    /\ \A i \in 1..Len(graph) : graph[i].k \in {"add", "mul"} => graph[graph[i].a].k # "const" /\ graph[graph[i].b].k # "const"
+
 \* Invariants for the guarded (sound) design
 SoundC03 == OpsImplySource
 SoundC02 == stage = "done" => \A env \in Envs : ValuesPreservedAt(env) /\ ViolationDetectedAt(env)
